@@ -223,12 +223,14 @@ def run_doc(item, only=None):
                 if only is not None and only != ctx:
                     continue
                 n += 1
-                off = AE._datetime_to_timestamp(start, period)
                 stay_expected = floor_period(d["disconnectTime"], period) - floor_period(d["connectionTime"], period)
                 try:
                     with warnings.catch_warnings():
                         warnings.simplefilter("ignore")
-                        ev = AE._convert_to_ev(dict(d), off, period, V, pmax, max_len, BP[bpk], ff)
+                        ev = convert_doc(d, zone, start, period, V, pmax, max_len, BP[bpk], ff)
+                except PublicRouteUnavailable:
+                    stats["out"].add(("doc", "public-route-unavailable"))
+                    continue
                 except ValueError as exc:
                     stay = stay_expected if max_len is None else min(stay_expected, max_len)
                     req = e2 if not ff else min(e2, pmax * stay * period / 60)
@@ -282,8 +284,8 @@ def run_doc(item, only=None):
                     with warnings.catch_warnings():
                         warnings.simplefilter("ignore")
                         q = AE.generate_events("tok", "caltech", start, start + timedelta(days=2), period, V, 6.656, max_len=max_len, battery_params=BP[bpk], force_feasible=ff)
-                pend = sorted((ts, e.ev.session_id) for ts, e in q._queue)
-                if pend != sorted((ev.arrival, ev.session_id) for ev in evs) or any(e.event_type != "Plugin" for _, e in q._queue):
+                pend = sorted((ts, e.ev.session_id) for ts, e in q.queue)
+                if pend != sorted((ev.arrival, ev.session_id) for ev in evs) or any(e.event_type != "Plugin" for _, e in q.queue):
                     rep("doc:e2e:event-queue", "generate_events queue does not hold one plug-in per session at its arrival", pend[:6], None, ctx)
     return viol, stats
 
@@ -291,6 +293,41 @@ def run_doc(item, only=None):
 # ------------------------------------------------------------------------------
 # stochastic samples
 # ------------------------------------------------------------------------------
+class PublicRouteUnavailable(Exception):
+    """harness-side: a case that can only be expressed through the module's internal converter"""
+
+
+def convert_doc(d, zone, start, period, V, pmax, max_len, bp, ff):
+    """one session document -> EV. Through the module's internal converter where it exists (fast, and aware datetimes of
+    any tz implementation can be handed over); otherwise through the public get_evs over the owned transport (documents
+    carry whole seconds and the client localises them with pytz)."""
+    conv, stamp = getattr(AE, "_convert_to_ev", None), getattr(AE, "_datetime_to_timestamp", None)
+    if conv is not None and stamp is not None:
+        return conv(dict(d), stamp(start, period), period, V, pmax, max_len, bp, ff)
+    c, dd = d["connectionTime"], d["disconnectTime"]
+    if c.microsecond or dd.microsecond or start.microsecond:
+        raise PublicRouteUnavailable("fraction of a second")
+    doc = {"connectionTime": http_date(c), "disconnectTime": http_date(dd), "doneChargingTime": http_date(dd), "kWhDelivered": d["kWhDelivered"], "sessionID": d["sessionID"], "spaceID": d["spaceID"], "timezone": zone, "siteID": "0002"}
+    with owned_requests(FakeServer([[doc]])):
+        evs = AE.get_evs("tok", "caltech", start, start + timedelta(days=400), period, V, pmax, max_len, bp, ff)
+    if len(evs) != 1:
+        raise PublicRouteUnavailable("get_evs returned %d sessions for one document" % len(evs))
+    return evs[0]
+
+
+def convert_matrix(matrix, period, V, pmax, max_len, bp, ff):
+    """sample matrix -> EVs: through the internal converter where it exists, else through the public generate_events
+    of a generator whose sample() returns the matrix (one day)"""
+    conv = getattr(StochasticEvents, "_convert_ev_matrix", None)
+    if conv is not None:
+        return conv(np.array(matrix, dtype=float), period, V, pmax, max_len, bp, ff)
+    q = Scripted([matrix]).generate_events([len(matrix)], period, V, pmax, max_len, bp, ff)
+    evs = []
+    while not q.empty():
+        evs.append(q.get_event().ev)
+    return sorted(evs, key=lambda e: int(e.session_id.split("_")[-1]))
+
+
 class Scripted(StochasticEvents):
     def __init__(self, days):
         super().__init__()
@@ -372,7 +409,7 @@ def run_sample(item, only=None):
                 import io, contextlib
 
                 with contextlib.redirect_stdout(io.StringIO()):
-                    evs = StochasticEvents._convert_ev_matrix(np.array(matrix, dtype=float), period, V, pmax, max_len, BP[bpk], ff)
+                    evs = convert_matrix(matrix, period, V, pmax, max_len, BP[bpk], ff)
             results = {ev.session_id: ev for ev in evs}
         except Exception as exc:
             guard(exc)
@@ -392,7 +429,7 @@ def run_sample(item, only=None):
                 try:
                     with warnings.catch_warnings():
                         warnings.simplefilter("ignore")
-                        ev = StochasticEvents._convert_ev_matrix(np.array([[a, du, en]]), period, V, pmax, max_len, BP[bpk], ff)[0]
+                        ev = convert_matrix([[a, du, en]], period, V, pmax, max_len, BP[bpk], ff)[0]
                 except ValueError as exc:
                     stay = exp_d - exp_a
                     if bpk == "l2-fit" and (stay < 1 or not any(cp >= req and can_deliver(cp, req, stay, V, period) for cp in CAPS)):
@@ -448,7 +485,7 @@ def run_sample(item, only=None):
             with warnings.catch_warnings():
                 warnings.simplefilter("ignore")
                 q = gen.generate_events(days, gperiod, V, 6.656)
-            got = sorted((ts, e.ev.arrival, e.ev.departure, e.ev.requested_energy) for ts, e in q._queue)
+            got = sorted((ts, e.ev.arrival, e.ev.departure, e.ev.requested_energy) for ts, e in q.queue)
             stats["n"] += 1
             if got != sorted(exp):
                 rep("sample:generate_events", "multi-day generate_events (period %r min) queue %s, expected %s" % (gperiod, got, sorted(exp)), got, sorted(exp), {"gen": True, "period": period})
@@ -476,7 +513,7 @@ def run_sample(item, only=None):
                     aa = a + 24.0
                     du2 = du if ml is None else min(du, ml)
                     exp.append((math.floor(Fraction(aa) * fpph), math.floor(Fraction(aa + du2) * fpph), round(min(en, 6.656 * du2) if ff else en, 9)))
-                got = sorted((e.ev.arrival, e.ev.departure, round(float(e.ev.requested_energy), 9)) for ts, e in q._queue)
+                got = sorted((e.ev.arrival, e.ev.departure, round(float(e.ev.requested_energy), 9)) for ts, e in q.queue)
                 if got != sorted(exp):
                     rep("sample:generate_events:%s" % label, "generate_events (%s options, the sampler returns its stored array) gave %s, expected %s" % (label, got, sorted(exp)), got, sorted(exp), {"twice": True, "period": period})
     return viol, stats
